@@ -60,6 +60,15 @@ def _big_stack():
         pass
 
 
+def _limit_mem():
+    import resource
+    try:
+        lim = int(os.environ.get("VERIF_HARNESS_MEM_GB", "2")) << 30
+        resource.setrlimit(resource.RLIMIT_AS, (lim, lim))
+    except Exception:
+        pass
+
+
 class MachineryError(Exception):
     pass
 
@@ -327,7 +336,8 @@ class Check:
         self.dist.setdefault("phase_s", {})[name] = round(now - getattr(self, "_tp", self.t0), 1)
         self._tp = now
 
-    def run_impl(self, binary, lines, jobs=None, timeout=1200, env=None, big_stack=False):
+    def run_impl(self, binary, lines, jobs=None, timeout=None, env=None, big_stack=False):
+        timeout = timeout or (90 if self.tier == 'quick' else 900)
         """Feed lines to the harness (sharded over processes); returns list of int lists
         (None for a case whose shard died)."""
         if not lines:
@@ -336,23 +346,42 @@ class Check:
         shards = [lines[i::jobs] for i in range(jobs)]
 
         def one(sh_lines):
-            try:
-                p = subprocess.run([binary], input="\n".join(sh_lines) + "\n", text=True,
-                                   stdout=subprocess.PIPE, stderr=subprocess.PIPE, timeout=timeout,
-                                   env=dict(os.environ, **(env or {})),
-                                   preexec_fn=_big_stack if big_stack else None)
-                outl = p.stdout.splitlines()
-            except subprocess.TimeoutExpired as e:
-                outl = (e.stdout or b"").decode().splitlines() if isinstance(e.stdout, bytes) else (e.stdout or "").splitlines()
+            # A case that hangs ([3]) or kills the harness ([4]: abort, allocation failure under the
+            # address-space limit) is marked and the harness restarted on the following lines.
             res = []
-            for i in range(len(sh_lines)):
-                if i < len(outl) and outl[i].strip() != "":
+            pos = 0
+            restarts = 0
+            while pos < len(sh_lines):
+                rest = sh_lines[pos:]
+                timed_out = False
+                try:
+                    p = subprocess.run([binary], input=("\n".join(rest) + "\n").encode(),
+                                       stdout=subprocess.PIPE, stderr=subprocess.DEVNULL, timeout=timeout,
+                                       env=dict(os.environ, **(env or {})),
+                                       preexec_fn=_big_stack if big_stack else _limit_mem)
+                    raw = p.stdout
+                except subprocess.TimeoutExpired as e:
+                    raw = e.stdout or b""
+                    timed_out = True
+                outl = raw.decode(errors="replace").split("\n")
+                if outl and not raw.endswith(b"\n"):
+                    outl = outl[:-1]          # drop a partial last line
+                outl = [l for l in outl[:len(rest)]]
+                while outl and outl[-1] == "":
+                    outl.pop()
+                for l in outl:
                     try:
-                        res.append([int(x) for x in outl[i].split()])
+                        res.append([int(x) for x in l.split()])
                     except ValueError:
                         res.append(None)
-                else:
-                    res.append(None)
+                pos += len(outl)
+                if pos < len(sh_lines):
+                    res.append([3] if timed_out else [4])
+                    pos += 1
+                    restarts += 1
+                    if restarts > 6:
+                        res.extend([None] * (len(sh_lines) - pos))
+                        break
             return res
 
         with ThreadPoolExecutor(jobs) as ex:
@@ -555,6 +584,57 @@ class Check:
                  self.compared, len(self.nontrivial_keys), len(self.violations), wall))
         sys.stdout.flush()
         sys.exit(1 if self.violations else 0)
+
+
+def standard_main(pid, crate, codes, gen_cases, predicate, nontrivial=None, matcher=None, rule="",
+                  make_case=None, extra=None, allowed_axioms=None, family="generated", trusted=()):
+    """The usual shape of a check: prove, build the harness, generate, run both sides, compare."""
+    ck = Check(pid, allowed_axioms=allowed_axioms)
+    ck.rule = rule
+    ck.trusted += list(trusted)
+    ck.prove()
+    ck.phase("prove")
+    binary, log = ck.cargo_build(crate)
+    ck.phase("cargo")
+    if binary is None:
+        path = ck.write_replay({"kind": "build", "property": pid, "unchecked": "correspondence via rust/%s" % crate,
+                                "log": log[-6000:]})
+        ck.violations.append((path, True, "harness rust/%s does not build against /repo: correspondence cannot be established" % crate))
+        ck.finish()
+    if ck.replay:
+        r = json.load(open(ck.replay))
+        if r.get("kind") != "case":
+            print(json.dumps(r, indent=1)[:4000])
+            sys.exit(0)
+        t = r["case"].split()
+        c = make_case(t[0], t[1:]) if make_case else Case(t[0], t[1:])
+        impl = ck.run_impl(binary, [c.line])
+        model = ck.run_model([c], codes, sample=1) if c.kind in codes else None
+        print("case     :", c.line[:2000])
+        print("impl     :", _clip(impl[0], 400))
+        print("model    :", _clip(model[0], 400) if model else None)
+        print("predicate:", (predicate(c, impl[0]) if predicate else None) or "holds")
+        ck.compare([c], impl, model, predicate, nontrivial, matcher)
+        ck.finish()
+    cases = gen_cases(ck)
+    ck.phase("generate")
+    impl = ck.run_impl(binary, [c.line for c in cases])
+    ck.phase("impl")
+    mcases = [c for c in cases if c.kind in codes]
+    mres = ck.run_model(mcases, codes)
+    ck.phase("model")
+    mmap = {id(c): r for c, r in zip(mcases, mres)}
+    both = [(c, i) for c, i in zip(cases, impl) if id(c) in mmap]
+    only = [(c, i) for c, i in zip(cases, impl) if id(c) not in mmap]
+    if both:
+        ck.compare([c for c, _ in both], [i for _, i in both], [mmap[id(c)] for c, _ in both],
+                   predicate, nontrivial, matcher, family=family)
+    if only:
+        ck.compare([c for c, _ in only], [i for _, i in only], None, predicate, nontrivial, matcher,
+                   family=family + " (implementation-only predicate)")
+    if extra:
+        extra(ck, binary)
+    ck.finish()
 
 
 def _clip(x, n=40):
